@@ -85,6 +85,12 @@ def setAt (l : List Nat) (i : Nat) (v : Nat) : List Nat := l.take i ++ v :: l.dr
 def removeAt (l : List Nat) (i : Nat) : List Nat := l.take i ++ l.drop (i + 1)
 def insertAt (l : List Nat) (i : Nat) (v : Nat) : List Nat := l.take i ++ v :: l.drop i
 
+/-- python `l[len(l) - k :] + l[: len(l) - k]` with `k = shift % len(l)`: rotation to the right (`torch.roll` along a dim) -/
+def rotR {α : Type} (l : List α) (shift : Int) : List α :=
+  if l.isEmpty then l else
+  let k := (shift % (l.length : Int)).toNat
+  l.drop (l.length - k) ++ l.take (l.length - k)
+
 /-- lengths of the pieces of `split(size)` on a dimension of length `n` (torch: one empty piece for n = 0) -/
 def splitLens (n size : Nat) : List Nat :=
   if size = 0 then [] else
@@ -147,7 +153,7 @@ inductive TOp where
   | tsplitN (n : Nat) (dim : DimArg)
   | tsplitL (idx : List Nat) (dim : DimArg)
   | flip (dims : List Int)
-  | roll (shift : Int) (dim : Int)
+  | roll (shifts : List Int) (dims : Option (List Int))   -- dims = none: roll of the flattened tensor
   | permute (perm : List Int)
   | transpose (d0 d1 : Int)
   | expand (sizes : List Int)
@@ -373,13 +379,28 @@ def torchSem (op : TOp) (cur : Raw) (other : Option Raw) : RawRes :=
       match normDims nd dims with
       | none => .err
       | some ds => .t ⟨cur.shape, if ds.contains 0 then cur.prov.reverse else cur.prov⟩
-  | .roll shift dim =>
-      match normDim nd dim with
-      | none => .err
-      | some d =>
-        if d ≠ 0 ∨ n0 = 0 then .t cur else
-        let s := (shift % (n0 : Int)).toNat
-        .t ⟨cur.shape, (List.range n0).map (fun i => cur.prov.getD ((i + n0 - s) % n0) .none)⟩
+  | .roll shifts dims =>
+      match dims with
+      | some ds =>
+          if shifts.length ≠ ds.length then .err else
+          match ds.mapM (normDim nd) with
+          | none => .err
+          | some nds =>
+            .t ⟨cur.shape, (shifts.zip nds).foldl (fun p (sd : Int × Nat) => if sd.2 = 0 then rotR p sd.1 else p) cur.prov⟩
+      | none =>
+          -- the flattened tensor is rolled: entry i receives the tail of entry i-q-1 and the head of entry i-q
+          match shifts with
+          | [s] =>
+              let total := numel cur.shape
+              if nd = 0 ∨ total = 0 then .t cur else
+              let m := total / n0
+              let s' := (s % (total : Int)).toNat
+              let q := s' / m
+              let r := s' % m
+              .t ⟨cur.shape, (List.range n0).map (fun i =>
+                let a := cur.prov.getD ((i + n0 - q) % n0) .none
+                if r = 0 then a else Prov.join a (cur.prov.getD ((i + 2 * n0 - q - 1) % n0) .none))⟩
+          | _ => .err
   | .permute perm =>
       match normDims nd perm with
       | none => .err
@@ -561,6 +582,7 @@ def makeSubitem (flow : Bool) (axes : Nat) (t : Raw) (g : GridTag) : Except ErrK
 inductive GridRes where
   | flat (g : List GridTag)
   | nested (gs : List (List GridTag))
+  | raises                               -- IndexError inside `_torch_function_grid`
   deriving Repr
 
 /-- `kwargs.get("dim", 0) == 0` as the dispatcher sees it. `torch.split`/`Tensor.split` are python wrappers
@@ -578,12 +600,47 @@ def isSplitFamily : TOp → Bool
 /-- python `grids[a : a + n]` -/
 def pySlice {α : Type} (l : List α) (a n : Nat) : List α := (l.drop a).take n
 
-/-- image.py:ImageBatch._torch_function_grid @98-146. `grids` = `_grid` of every argument that has one
+/-- python `self._grid[i]` for a tuple -/
+def pyGet (grids : List GridTag) (i : Int) : Option GridTag :=
+  match normDim grids.length i with
+  | some k => grids[k]?
+  | none => none
+
+/-- image.py:_torch_function_grid @111 `ndim = grids[0][0].ndim + 2 if grids[0] else 0` (taken from the grids, not from
+    the tensor: a property access would re-enter `__torch_function__`); 0 = empty batch -/
+def gridNdim (g0 : List GridTag) : Int :=
+  match g0 with
+  | [] => 0
+  | g :: _ => ((g.shape.length + 2 : Nat) : Int)
+
+/-- image.py:ImageBatch._torch_function_grid @98-191. `grids` = `_grid` of every argument that has one
     (arguments of cat/stack are the members of the first positional list). -/
 def torchFunctionGrid (op : TOp) (grids : List (List GridTag)) : Option GridRes :=
   match grids with
   | [] => none
   | g0 :: _ =>
+    let ndim : Int := gridNdim g0
+    match op with
+    -- @112-113 `if ndim == 0: pass` (empty batch): the three branches are skipped, the generic code returns `grids[0]`
+    | .flip dims =>                                                                      -- @114-121
+        if ndim = 0 then some (.flat g0) else
+        if dims.any (fun d => d % ndim == 0) then some (.flat g0.reverse) else some (.flat g0)
+    | .roll shifts dims =>                                                               -- @122-135
+        if ndim = 0 then some (.flat g0) else
+        (match dims with
+         | none => none        -- flattened roll mixes the entries of different images: demoted
+         | some ds =>
+           some (.flat ((shifts.zip ds).foldl (fun (g : List GridTag) (sd : Int × Int) =>
+             if sd.2 % ndim == 0 && !g.isEmpty then rotR g sd.1 else g) g0)))
+    | .indexSelect dim idx =>                                                            -- @136-141
+        if ndim = 0 then some (.flat g0) else
+        if dim % ndim == 0 then
+          (match idx.mapM (pyGet g0) with
+           | some gs => some (.flat gs)
+           | none => some .raises)
+        else some (.flat g0)
+    | .permute _ | .transpose _ _ => none                                                -- @140-157 batch dim may have moved
+    | _ =>
     if kwDimIsZero op then
       match op with
       | .cat _ _ => some (.flat grids.flatten)                                           -- @112-113
@@ -707,6 +764,7 @@ def batchTorchFunction (op : TOp) (cur : SVal) (other : Option SVal) : Val :=
             | some (.nested []) => ffResult d (some []) axes
             | some (.nested _) => .err .dispatch              -- `grid[0].ndim` on a list: AttributeError
             | some (.flat g) => ffResult d (some g) axes
+            | some .raises => .err .dispatch
             | none => ffResult d none axes
           match res with
           | .t d => if isSplitFamily op then .err .dispatch else one d
@@ -719,6 +777,7 @@ def batchTorchFunction (op : TOp) (cur : SVal) (other : Option SVal) : Val :=
             (match grid with
              | some (.flat g) => ibResult d (some g)
              | some (.nested _) => .err .dispatch
+             | some .raises => .err .dispatch
              | none => ibResult d none)
         | .ts ds =>
             if isSplitFamily op then
@@ -750,12 +809,6 @@ def imageTorchFunction (op : TOp) (cur : SVal) (other : Option SVal) : Val :=
         | .t d => one d
         | .ts ds => if isSplitFamily op then collect (ds.map one) else .many (ds.map SVal.plain)
         | .err => .err .torch
-
-/-- python `self._grid[i]` for a tuple -/
-def pyGet (grids : List GridTag) (i : Int) : Option GridTag :=
-  match normDim grids.length i with
-  | some k => grids[k]?
-  | none => none
 
 def keepFirstEll : List Ix → Bool → List Ix
   | [], _ => []
